@@ -136,8 +136,35 @@ def rand_history(rng):
 _TIER = ["quick"]
 
 
+def edit_histories(rng, count):
+    """a small highlighting editor on a 24-30 column terminal: consecutive frames differ by ONE character deleted from
+    or typed into a token of a multi-run line (long unchanged prefixes, a run that becomes a prefix of its old self)"""
+    B, R, G, P = [5, 0, 0, 0, 0, 0, 0, 0], [2, 0, 1, 0, 0, 0, 0, 0], [0, 3, 0, 0, 0, 0, 0, 0], [0] * 8
+    base = [[["def ", B], ["compute", R], ["(x, y):", P]],
+            [["    ", P], ["return", B], [" ", P], ["x", G], [" + ", P], ["y", G], ["  # sum", R]],
+            [["", P], ["print", B], ["(", P], ["'total'", R], [", ", P], ["compute", R], ["(1, 2))", P]]]
+    for _ in range(count):
+        w = rng.choice([24, 27, 30])
+        lines = [[list(r) for r in ln] for ln in base]
+        ops = [["render", "list", [["fs", [[t, list(a)] for t, a in ln]] for ln in lines], [0, 0]]]
+        for _ in range(rng.randint(2, 5)):
+            i = rng.randrange(len(lines))
+            j = rng.choice([k for k, (t, _) in enumerate(lines[i]) if t])
+            t, a = lines[i][j]
+            if rng.random() < 0.6 and len(t) > 0:
+                k = rng.choice([len(t) - 1, len(t) - 1, rng.randrange(len(t))])
+                lines[i][j] = [t[:k] + t[k + 1:], a]                      # delete one character (often the last)
+            else:
+                k = rng.randint(0, len(t))
+                lines[i][j] = [t[:k] + rng.choice("xyz_1") + t[k:], a]     # type one
+            ops.append(["render", rng.choice(["list", "list", "fsarray"]),
+                        [["fs", [[t2, list(a2)] for t2, a2 in ln]] for ln in lines], [rng.randrange(3), rng.randrange(w)]])
+        yield {"hide": rng.random() < 0.5, "h": 3, "w": w, "ops": ops}
+
+
 def generate(rng, tier):
     _TIER[0] = tier
+    yield from edit_histories(rng, 60 if tier == "thorough" else 12)
     n = 6000 if tier == "thorough" else 500
     for _ in range(n):
         yield rand_history(rng)
